@@ -39,7 +39,7 @@ func c19blocks(env *core.Env) (a, b, c int) {
 	c19lists()
 	a = (len(c19single) + c19SingleBlock - 1) / c19SingleBlock
 	b = (len(c19two) + c19TwoBlock - 1) / c19TwoBlock
-	c = env.Pick(20000, 400000) / c19RandBlock
+	c = env.Pick(100000, 2000000) / c19RandBlock
 	return
 }
 
@@ -156,7 +156,7 @@ func c19wasm(env *core.Env) []core.CaseResult {
 	cmd := exec.Command("go", args...)
 	cmd.Dir = c20harnessDir()
 	cmd.Env = append(os.Environ(), "GOOS=js", "GOARCH=wasm", "GOFLAGS=-mod=mod", "GOPROXY=off", "GOSUMDB=off", "GOTOOLCHAIN=local",
-		"VERIF_SEED="+strconv.FormatInt(env.Seed, 10), "C19_JS_RANDOM="+strconv.Itoa(env.Pick(3000, 40000)))
+		"VERIF_SEED="+strconv.FormatInt(env.Seed, 10), "C19_JS_RANDOM="+strconv.Itoa(env.Pick(10000, 150000)))
 	out, rerr := cmd.CombinedOutput()
 	seenStats := false
 	for _, l := range strings.Split(string(out), "\n") {
